@@ -649,7 +649,8 @@ class RemoteWorker(Worker, metaclass=RemoteWorkerMeta):
                     logger.debug('Releasing the local control thread')
                     self._ctrl_comms.parent_end.send(None)
                     self._ctrl_thread_loc.join()
-        except Exception as e:
+        except BaseException as e:
+            # also SystemExit & co. (e.g. raised while the payload is unpickled): the server is waiting for our runtime info
             logger.exception('Exception occurred in the worker code')
             result = (False, e)
             self._comms.child_end.send((self._host, self._pid, self._tid, self._ident))
